@@ -7,6 +7,11 @@ open Sx
 open Sxlib_ir
 
 let to_edges = to_list (to_pair to_z to_z)
+(* same reply as Sxlib_ir.formula_reply, through the pruned rendering to_cnf_f (coq/FamFastFacts.v:
+   to_cnf_f l = to_cnf l), as the C01 commands do: to_cnf enumerates all subsets for a cardinality constraint,
+   which is exponential in the degree of a hub (Tiling on a star with 33 vertices did not finish) *)
+let formula_reply (numvar : z) (irs : ir list) : sx =
+  L [of_z numvar; of_cnf (Model.to_cnf_f irs); of_opb (Model.to_opb irs)]
 let raises = L [A "raises"; Q "ValueError"]
 let reply_opt nv = function None -> raises | Some irs -> formula_reply nv irs
 let bad_arity = Bad "arity"
